@@ -14,7 +14,25 @@ Record case := mkCase {
   k_fmatch : list (bytes * bytes * bool);   (* key, literal, Filter.Match all *)
 }.
 
-Definition decode (s : sx) : option case :=
+(** a HISTORY: one long-lived single-field Projection and one long-lived
+    literal Filter per key (hence one extractor each), plus one long-lived
+    [.fullname] projection with an exclusion set, applied in order to
+    consecutive results (a Result overwritten in place, or a Reader's Result
+    taken without Clone).  Per step: the name and configuration the result
+    held at that moment, and what each key's projection / filter answered. *)
+Record hstep := mkHstep {
+  h_name : bytes;
+  h_cfg  : list (bytes * bytes * bool);
+  h_gets : list bytes;     (* Key.Get per key, in key order *)
+  h_fm   : list bool;      (* Filter.Match all per (key, literal) *)
+  h_xfull : bytes;         (* .fullname with the exclusion set *)
+}.
+
+Inductive kase :=
+| KOne (c : case)
+| KHist (keys : list (bytes * bytes)) (ex : list bytes) (steps : list hstep).
+
+Definition decode_one (s : sx) : option case :=
   match s with
   | SL [SB name; cfgs; SB b; ps; SB bb; gets; xf; fm] =>
       do cfgs <- as_list (as_triple as_b as_b as_bool) cfgs;
@@ -24,6 +42,26 @@ Definition decode (s : sx) : option case :=
       do fm <- as_list (as_triple as_b as_b as_bool) fm;
       Some (mkCase name cfgs b ps bb gets xf fm)
   | _ => None
+  end.
+
+Definition as_hstep (s : sx) : option hstep :=
+  match s with
+  | SL [SB name; cfgs; gets; fm; SB xf] =>
+      do cfgs <- as_list (as_triple as_b as_b as_bool) cfgs;
+      do gets <- as_list as_b gets;
+      do fm <- as_list as_bool fm;
+      Some (mkHstep name cfgs gets fm xf)
+  | _ => None
+  end.
+
+Definition decode (s : sx) : option kase :=
+  match s with
+  | SL [SZ 1; keys; ex; steps] =>
+      do keys <- as_list (as_pair as_b as_b) keys;
+      do ex <- as_list as_b ex;
+      do steps <- as_list as_hstep steps;
+      Some (KHist keys ex steps)
+  | _ => do c <- decode_one s; Some (KOne c)
   end.
 
 Definition to_cfg (l : list (bytes * bytes * bool)) : list cfg :=
@@ -55,7 +93,7 @@ Fixpoint shape_b (ps : list bytes) (n_ends_gmp : bool) : bool :=
   | p :: ps' => slash_part_b p && shape_b ps' n_ends_gmp
   end.
 
-Definition prop_ok (c : case) : bool :=
+Definition prop_one (c : case) : bool :=
   let cfgs := to_cfg (k_cfg c) in
   beq (k_base c ++ concat (k_parts c)) (k_name c)
   && noslash (k_base c)
@@ -65,13 +103,39 @@ Definition prop_ok (c : case) : bool :=
   && forallb (fun '(k, got) => beq (extract k (k_name c) cfgs) got) (k_gets c)
   && forallb (fun '(k, lit, m) => Bool.eqb (beq (extract k (k_name c) cfgs) lit) m) (k_fmatch c).
 
-Definition corr_ok (c : case) : bool :=
+Definition corr_one (c : case) : bool :=
   let cfgs := to_cfg (k_cfg c) in
   let '(b, ps) := parts (k_name c) in
   beq b (k_base c) && blist_eqb ps (k_parts c) && beq (base (k_name c)) (k_Base c)
   && forallb (fun '(k, got) => beq (extract k (k_name c) cfgs) got) (k_gets c)
   && forallb (fun '(ex, got) => beq (extractor_fullname ex (k_name c)) got) (k_xfull c)
   && forallb (fun '(k, lit, m) => Bool.eqb (beq (extract k (k_name c) cfgs) lit) m) (k_fmatch c).
+
+(** statelessness: every answer of a long-lived projection / filter is the
+    documented meaning of the key for the name (and configuration) the result
+    holds AT THAT MOMENT, whatever the same extractor was applied to before
+    (even bytes at the same address with the same length). *)
+Definition hist_step_ok (keys : list (bytes * bytes)) (st : hstep) : bool :=
+  let cfgs := to_cfg (h_cfg st) in
+  list_eqb beq (map (fun '(k, _) => extract k (h_name st) cfgs) keys) (h_gets st)
+  && list_eqb Bool.eqb (map (fun '(k, lit) => beq (extract k (h_name st) cfgs) lit) keys) (h_fm st).
+
+Definition prop_ok (c : kase) : bool :=
+  match c with
+  | KOne c => prop_one c
+  | KHist keys ex steps =>
+      forallb (fun st => hist_step_ok keys st
+                 (* .fullname with nothing excluded is the whole name, at every step *)
+                 && (negb (is_nil ex) || beq (h_xfull st) (h_name st))) steps
+  end.
+
+Definition corr_ok (c : kase) : bool :=
+  match c with
+  | KOne c => corr_one c
+  | KHist keys ex steps =>
+      forallb (fun st => hist_step_ok keys st
+                 && beq (extractor_fullname ex (h_name st)) (h_xfull st)) steps
+  end.
 
 Definition run_case (s : sx) : N :=
   match decode s with
